@@ -87,7 +87,7 @@ func worker(id, tier string, shard, n int, out string) int {
 	p := core.Lookup(id)
 	if p == nil {
 		fmt.Fprintln(os.Stderr, "unknown property", id)
-		return 2
+		return 4 // harness failure (2 is what the Go runtime exits with on a fatal error)
 	}
 	r := core.NewRec(id, seed())
 	if jp := os.Getenv("MC_JOURNAL"); jp != "" {
@@ -303,8 +303,11 @@ func run(id, tier string) int {
 			sem <- struct{}{}
 			defer func() { <-sem }()
 			res, err, stderr := runShard(sh, "")
-			if ee, ok := err.(*exec.ExitError); res == nil && ok && (ee.ExitCode() == 4 || ee.ExitCode() == 2) {
-				// The harness itself failed (not the library): never a violation.
+			if ee, ok := err.(*exec.ExitError); res == nil && ok && ee.ExitCode() == 4 {
+				// The harness itself failed (not the library): never a violation. (Exit code 2
+				// is NOT a harness failure: it is how the Go runtime ends a process on a fatal
+				// error such as a stack overflow inside library code; that goes through the
+				// journal re-run below and is reported with the case that kills the worker.)
 				mu.Lock()
 				harnessErr = append(harnessErr, fmt.Sprintf("shard %d: %s", sh, stderr))
 				mu.Unlock()
